@@ -88,6 +88,11 @@ class Summary:
         self.consumes = consumes     # argument indices whose pointee objects are consumed (moved) on success
 
 
+# functions whose contract is to release (or take over) what they are given
+DESTRUCTORS = ("econf_freeFile", "econf_freeArray", "econf_freeExtValue", "econf_freeFilep", "econf_freeArrayp", "free_buffer", "free_groups",
+               "nftw_remove")
+
+
 class OwnAnalysis:
     def __init__(self, prog, fn, summaries, fresh_funcs=(), maybe_null_funcs=(), track_fields=(), entry_out="caller",
                  err_vars=("error", "t_err", "ret", "retval", "econf_error"), opaque_out=()):
@@ -131,6 +136,19 @@ class OwnAnalysis:
         self.counter = 0
         self.truncated = False
         self.pp_params = [p["name"] for p in fn.params if p.get("ct", "").endswith("**") or p.get("ct", "").endswith("***")]
+        # a `char **` that is only read is a list of strings lent by the caller, not an out-parameter
+        written_through = set()
+        for n in fn.walk():
+            if n.k == "BinaryOperator" and n.j.get("op") == "=":
+                l = n.children[0].strip()
+                if l.k == "UnaryOperator" and l.j.get("op") == "*" and l.children[0].strip().k == "DeclRefExpr":
+                    written_through.add(l.children[0].strip().j.get("name"))
+            if n.k == "CallExpr":
+                for a in n.call_args():
+                    if a.strip().k == "DeclRefExpr" and a.strip().j.get("dk") == "param":
+                        written_through.add(a.strip().j.get("name"))      # handed on: the callee may write through it
+        self.pp_params = [p for p in self.pp_params if not (
+            (fn.param(p) or {}).get("ct") in ("char **", "const char **", "char *const *") and p not in written_through)]
         self.ptr_locals = set()
         for name, d in fn.local_decls().items():
             ct = d.get("ct", "")
@@ -138,12 +156,21 @@ class OwnAnalysis:
                 self.ptr_locals.add(name)
         self.cleanup = {name: d["cleanup"] for name, d in fn.local_decls().items() if d.get("cleanup")}
         self.ptr_locals = self._interesting(self.ptr_locals)
+        self.is_destructor = fn.name.startswith(("econf_free", "free_", "econf_freeArray")) or fn.name in DESTRUCTORS
         self.released_params = set()
         for c in fn.calls(tuple(RELEASERS)):
             for a in c.call_args():
                 a2 = a.strip()
                 if a2.k == "DeclRefExpr" and a2.j.get("dk") == "param":
                     self.released_params.add(a2.j["name"])
+        # ... or are copied into a pointer local (which may then be released: freeing what the caller lent)
+        pnames = set(p["name"] for p in fn.params if (p.get("ct") or "").endswith("*") and p["name"] not in self.pp_params)
+        for lhs, rhs, st2 in fn.assignments():
+            r = rhs.strip()
+            if r.k == "DeclRefExpr" and r.j.get("dk") == "param" and r.j.get("name") in pnames:
+                nm = lhs["name"] if isinstance(lhs, dict) else (lhs.strip().j.get("name") if lhs.strip().k == "DeclRefExpr" else None)
+                if nm in self.ptr_locals:
+                    self.released_params.add(r.j["name"])
         # block-scoped locals die when their loop iteration ends
         self.loop_scoped = {}
         for n in fn.walk():
@@ -271,6 +298,10 @@ class OwnAnalysis:
             self.report("double-free", node, loc, "%s(%s): %s was already released" % (callee, loc, st.site.get(obj, "the object")), st)
         elif h == "M":
             self.report("free-after-move", node, loc, "%s(%s): ownership of %s was handed over before" % (callee, loc, st.site.get(obj, "the object")), st)
+        elif h == "C" and str(obj).startswith("caller:") and str(obj)[7:] not in self.pp_params and not self.is_destructor:
+            self.report("free-of-borrowed", node, loc,
+                        "%s(%s): this is %s - memory the caller (or a process-wide list) still owns and will use or release again" % (
+                            callee, loc, st.site.get(obj, "the caller's object")), st)
         st.heap[obj] = "F"
 
     def eval_rhs(self, st, e, node):
